@@ -6,6 +6,8 @@ import (
 	"path/filepath"
 	"sort"
 	"strings"
+	"sync"
+	"sync/atomic"
 	"time"
 
 	commonmodels "github.com/lindb/common/models"
@@ -67,6 +69,9 @@ type world struct {
 	// the tag value dictionary was compacted; ...Visible: and its store has re-read the snapshot since
 	dictCompactedPending, dictCompactedVisible bool
 	log                                        []string
+	logMu                                      sync.Mutex // operations nested inside a flush log from their own goroutine
+	lastQueryNote                              atomic.Value
+	bodyNotJudged                              bool // withSeams: the lookup overlapped the step nested inside it (bounded wait expired)
 }
 
 func newWorld(t failer, shards []models.ShardID, leaves int) *world {
@@ -125,10 +130,16 @@ func (w *world) close() {
 }
 
 func (w *world) logf(format string, args ...any) {
+	w.logMu.Lock()
+	defer w.logMu.Unlock()
 	w.log = append(w.log, fmt.Sprintf(format, args...))
 }
 
-func (w *world) history() string { return strings.Join(w.log, " ; ") }
+func (w *world) history() string {
+	w.logMu.Lock()
+	defer w.logMu.Unlock()
+	return strings.Join(w.log, " ; ")
+}
 
 // ---- steps ----------------------------------------------------------------------------------------
 
@@ -436,13 +447,23 @@ func isNotFound(err error) bool {
 // error is the empty answer.
 func (w *world) query(sqlText string) ([]row, error) {
 	rs, err := w.c.Query(w.db, sqlText)
+	w.lastQueryNote.Store("")
 	if err != nil {
 		if isNotFound(err) {
+			w.lastQueryNote.Store("the statement answered the not-found error: " + err.Error())
 			return nil, nil
 		}
 		return nil, err
 	}
 	return rowsOf(rs), nil
+}
+
+// queryNote tells how the last statement came to an empty answer (diagnostics of failure messages only).
+func (w *world) queryNote() string {
+	if s, _ := w.lastQueryNote.Load().(string); s != "" {
+		return "\n(" + s + ")"
+	}
+	return ""
 }
 
 func rowsOf(rs *commonmodels.ResultSet) []row {
